@@ -1,6 +1,179 @@
-// HIR-level facts (or-patterns in let chains etc.). Filled in incrementally.
+// HIR-level facts: user-written unsafe, or-patterns that are followed by a condition
+// (let-chains `if let A | B = e && cond`, match arms with a guard).
+use crate::{esc, list, obj, path, span_info};
+use rustc_hir as hir;
+use rustc_hir::intravisit::{self, Visitor};
+use rustc_middle::hir::nested_filter;
 use rustc_middle::ty::TyCtxt;
 
-pub fn dump(_tcx: TyCtxt<'_>) -> String {
-    "{}".to_string()
+struct V<'tcx> {
+    tcx: TyCtxt<'tcx>,
+    unsafe_sites: Vec<String>,
+    orpats: Vec<String>,
+    owner: Vec<String>,
+}
+
+fn qpath_str(q: &hir::QPath<'_>) -> String {
+    match q {
+        hir::QPath::Resolved(_, p) => p.segments.iter().map(|s| s.ident.to_string()).collect::<Vec<_>>().join("::"),
+        hir::QPath::TypeRelative(_, seg) => format!("<_>::{}", seg.ident),
+    }
+}
+
+fn pat_json(p: &hir::Pat<'_>) -> String {
+    use hir::PatKind::*;
+    match &p.kind {
+        Wild | Missing => obj(vec![("k", esc("wild"))]),
+        Binding(_, _, ident, sub) => {
+            let mut v = vec![("k", esc("bind")), ("name", esc(&ident.to_string()))];
+            if let Some(s) = sub {
+                v.push(("sub", pat_json(s)));
+            }
+            obj(v)
+        }
+        Tuple(ps, ddpos) => obj(vec![
+            ("k", esc("tuple")),
+            ("dotdot", format!("{}", ddpos.as_opt_usize().map(|x| x as i64).unwrap_or(-1))),
+            ("ps", list(ps.iter().map(pat_json).collect())),
+        ]),
+        TupleStruct(q, ps, ddpos) => obj(vec![
+            ("k", esc("ctor")),
+            ("path", esc(&qpath_str(q))),
+            ("dotdot", format!("{}", ddpos.as_opt_usize().map(|x| x as i64).unwrap_or(-1))),
+            ("ps", list(ps.iter().map(pat_json).collect())),
+        ]),
+        Struct(q, fs, _) => obj(vec![
+            ("k", esc("struct")),
+            ("path", esc(&qpath_str(q))),
+            ("fields", list(fs.iter().map(|f| obj(vec![("name", esc(&f.ident.to_string())), ("pat", pat_json(f.pat))])).collect())),
+        ]),
+        Or(ps) => obj(vec![("k", esc("or")), ("ps", list(ps.iter().map(pat_json).collect()))]),
+        Ref(s, ..) | Box(s) | Deref(s) => obj(vec![("k", esc("ref")), ("sub", pat_json(s))]),
+        Expr(e) => match &e.kind {
+            hir::PatExprKind::Path(q) => obj(vec![("k", esc("ctor")), ("path", esc(&qpath_str(q))), ("dotdot", "-1".into()), ("ps", "[]".into())]),
+            _ => obj(vec![("k", esc("lit"))]),
+        },
+        Guard(s, _) => obj(vec![("k", esc("guardpat")), ("sub", pat_json(s))]),
+        _ => obj(vec![("k", esc("other"))]),
+    }
+}
+
+fn has_or(p: &hir::Pat<'_>) -> bool {
+    let mut found = false;
+    p.walk(|q| {
+        if let hir::PatKind::Or(_) = q.kind {
+            found = true;
+        }
+        !found
+    });
+    found
+}
+
+impl<'tcx> V<'tcx> {
+    fn site(&self, sp: rustc_span::Span) -> Vec<(&'static str, String)> {
+        let (file, line, exp, m) = span_info(self.tcx, sp);
+        let mut v = vec![("file", esc(&file)), ("line", line.to_string()), ("owner", esc(self.owner.last().map(|s| s.as_str()).unwrap_or("")))];
+        if exp {
+            v.push(("exp", esc(&m)));
+        }
+        v
+    }
+}
+
+impl<'tcx> Visitor<'tcx> for V<'tcx> {
+    type NestedFilter = nested_filter::All;
+
+    fn maybe_tcx(&mut self) -> TyCtxt<'tcx> {
+        self.tcx
+    }
+
+    fn visit_item(&mut self, i: &'tcx hir::Item<'tcx>) {
+        if let hir::ItemKind::Impl(im) = &i.kind {
+            if let Some(of) = im.of_trait {
+                if matches!(of.safety, hir::Safety::Unsafe) {
+                    let mut s = self.site(i.span);
+                    s.push(("what", esc("unsafe impl")));
+                    self.unsafe_sites.push(obj(s));
+                }
+            }
+        }
+        intravisit::walk_item(self, i)
+    }
+
+    fn visit_fn(&mut self, fk: intravisit::FnKind<'tcx>, fd: &'tcx hir::FnDecl<'tcx>, b: hir::BodyId, sp: rustc_span::Span, id: rustc_hir::def_id::LocalDefId) {
+        let unsafe_fn = match fk {
+            intravisit::FnKind::ItemFn(_, _, h) => h.is_unsafe(),
+            intravisit::FnKind::Method(_, sig) => sig.header.is_unsafe(),
+            intravisit::FnKind::Closure => false,
+        };
+        self.owner.push(path(self.tcx, id.to_def_id()));
+        if unsafe_fn {
+            let mut s = self.site(sp);
+            s.push(("what", esc("unsafe fn")));
+            self.unsafe_sites.push(obj(s));
+        }
+        intravisit::walk_fn(self, fk, fd, b, id);
+        self.owner.pop();
+    }
+
+    fn visit_block(&mut self, b: &'tcx hir::Block<'tcx>) {
+        if let hir::BlockCheckMode::UnsafeBlock(hir::UnsafeSource::UserProvided) = b.rules {
+            let mut s = self.site(b.span);
+            s.push(("what", esc("unsafe block")));
+            self.unsafe_sites.push(obj(s));
+        }
+        intravisit::walk_block(self, b)
+    }
+
+    fn visit_expr(&mut self, e: &'tcx hir::Expr<'tcx>) {
+        // let-chain: `let PAT = init && cond ...`
+        if let hir::ExprKind::Binary(op, l, _r) = &e.kind {
+            if op.node == hir::BinOpKind::And {
+                // leftmost operands of the && chain that are `let`s with or-patterns, followed by something
+                let mut cur = *l;
+                loop {
+                    match &cur.kind {
+                        hir::ExprKind::Let(le) => {
+                            if has_or(le.pat) {
+                                let mut s = self.site(le.span);
+                                s.push(("ctx", esc("let-chain")));
+                                s.push(("pat", pat_json(le.pat)));
+                                self.orpats.push(obj(s));
+                            }
+                            break;
+                        }
+                        hir::ExprKind::Binary(op2, _l2, r2) if op2.node == hir::BinOpKind::And => {
+                            if let hir::ExprKind::Let(le) = &r2.kind {
+                                if has_or(le.pat) {
+                                    let mut s = self.site(le.span);
+                                    s.push(("ctx", esc("let-chain")));
+                                    s.push(("pat", pat_json(le.pat)));
+                                    self.orpats.push(obj(s));
+                                }
+                            }
+                            break;
+                        }
+                        _ => break,
+                    }
+                }
+            }
+        }
+        intravisit::walk_expr(self, e)
+    }
+
+    fn visit_arm(&mut self, a: &'tcx hir::Arm<'tcx>) {
+        if a.guard.is_some() && has_or(a.pat) {
+            let mut s = self.site(a.span);
+            s.push(("ctx", esc("match-guard")));
+            s.push(("pat", pat_json(a.pat)));
+            self.orpats.push(obj(s));
+        }
+        intravisit::walk_arm(self, a)
+    }
+}
+
+pub fn dump(tcx: TyCtxt<'_>) -> String {
+    let mut v = V { tcx, unsafe_sites: Vec::new(), orpats: Vec::new(), owner: Vec::new() };
+    tcx.hir_walk_toplevel_module(&mut v);
+    obj(vec![("unsafe", list(v.unsafe_sites)), ("orpats", list(v.orpats))])
 }
